@@ -1,4 +1,971 @@
-//! C16 — stub, not built yet.
+//! C16 — the lexer is total, loses no text, reads literals as written; print → read round trips.
+//! Also serves the location function of C17 (`C16 loc …`).
+//!
+//! Correspondence lines:
+//!   `C16 lex x<hex text>`            every token of `Lex::next` until EndOfInput / first error
+//!   `C16 nonws x<hex text>`          the same through `next_nonws`
+//!   `C16 loc x<hex text> <offset>`   `token_location` of a token starting at that byte
+//!   `C16 print <raw flags> <cell>`   `State::format_cell` (Debug printer under FmtFlags)
+//! Oracle (implementation only, independent references written here): tiling and progress of the
+//! token ranges, token texts free of / made of ASCII whitespace, generated literal spellings
+//! denote the value they were generated from (or are rejected exactly when out of range),
+//! reals agree with `str::parse::<f64>`, print → eval → `==`/`equal?` for ints, bit-strings and
+//! vectors/maps of those, line/column/whole-line recounted independently.
+use super::gen::*;
+use crate::canon;
+use crate::rng::Rng;
 use crate::Ctx;
+use xeh::lex::{token_location, Lex, Tok};
+use xeh::prelude::*;
 
-pub fn run(_ctx: &mut Ctx) {}
+fn hext(s: &str) -> String {
+    format!("x{}", canon::hex(s.as_bytes()))
+}
+
+fn us(s: &str) -> String {
+    s.chars().map(|c| if c == ' ' || c == '\n' { '_' } else { c }).collect()
+}
+
+#[derive(Clone, Debug)]
+enum Seen {
+    Tok { tok: Tok, lo: usize, hi: usize },
+    Eof,
+    Err { msg: String, elo: usize, ehi: usize, lo: usize, hi: usize },
+    Panic,
+}
+
+fn render_tok(text: &str, tok: &Tok, lo: usize, hi: usize) -> String {
+    match tok {
+        Tok::EndOfInput => format!("E@{}-{}", lo, hi),
+        Tok::Word(_) => format!("w@{}-{}", lo, hi),
+        Tok::Whitespace(_) => format!("W@{}-{}", lo, hi),
+        Tok::Comment(_) => format!("c@{}-{}", lo, hi),
+        Tok::Literal(Cell::Real(r)) => {
+            // the text handed to the float parser: the token without `_`
+            let cleaned: String = text[lo..hi].chars().filter(|c| *c != '_').collect();
+            format!("L@{}-{}:R{}:{:016x}", lo, hi, canon::hex(cleaned.as_bytes()), r.to_bits())
+        }
+        Tok::Literal(c) => format!("L@{}-{}:{}", lo, hi, canon::cell(c)),
+    }
+}
+
+fn render(text: &str, seen: &[Seen]) -> String {
+    let mut out = Vec::new();
+    for s in seen {
+        out.push(match s {
+            Seen::Tok { tok, lo, hi } => render_tok(text, tok, *lo, *hi),
+            Seen::Eof => "eof".to_string(),
+            Seen::Err { msg, elo, ehi, lo, hi } => format!("err:{}:{}-{}@{}-{}", us(msg), elo, ehi, lo, hi),
+            Seen::Panic => "panic".to_string(),
+        });
+    }
+    out.join(" ")
+}
+
+/// drive the real lexer; `nonws` selects `next_nonws`
+fn drive(text: &str, nonws: bool) -> Vec<Seen> {
+    let mut lex = Lex::new(Xstr::from(text));
+    let mut seen = Vec::new();
+    // a total lexer needs at most len+1 calls; the bound only guards the harness against a non-progressing lexer
+    for _ in 0..text.len() + 2 {
+        let r = crate::guarded(|| {
+            let r = if nonws { lex.next_nonws() } else { lex.next() };
+            let rg = lex.last_substr().range();
+            (r, rg)
+        });
+        match r {
+            None => {
+                seen.push(Seen::Panic);
+                return seen;
+            }
+            Some((Ok(Tok::EndOfInput), _)) => {
+                seen.push(Seen::Eof);
+                return seen;
+            }
+            Some((Ok(tok), rg)) => seen.push(Seen::Tok { tok, lo: rg.start, hi: rg.end }),
+            Some((Err(Xerr::ParseError { msg, substr }), rg)) => {
+                let er = substr.range();
+                seen.push(Seen::Err { msg: msg.to_string(), elo: er.start, ehi: er.end, lo: rg.start, hi: rg.end });
+                return seen;
+            }
+            Some((Err(e), rg)) => {
+                seen.push(Seen::Err { msg: format!("other:{:?}", e), elo: 0, ehi: 0, lo: rg.start, hi: rg.end });
+                return seen;
+            }
+        }
+    }
+    seen.push(Seen::Panic); // no progress: reported as a failure by the oracle
+    seen
+}
+
+fn is_ascii_ws(c: char) -> bool {
+    matches!(c, ' ' | '\t' | '\n' | '\x0c' | '\r')
+}
+
+/// the property's own statement about one text, checked on the implementation's answer
+fn oracle_text(ctx: &mut Ctx, text: &str, seen: &[Seen]) {
+    let case = || format!("C16 lex {}", hext(text));
+    let obs = || render(text, seen);
+    // totality: ends with eof or an error value, never a panic / stall
+    let last = seen.last().unwrap();
+    ctx.check(!matches!(last, Seen::Panic), case, || "terminates with EndOfInput or an error value".into(), obs);
+    // tiling + progress
+    let mut at = 0usize;
+    let mut ok = true;
+    let mut why = String::new();
+    for s in seen {
+        match s {
+            Seen::Tok { tok, lo, hi } => {
+                if *lo != at {
+                    ok = false;
+                    why = format!("token starts at {} but the previous one ended at {}", lo, at);
+                    break;
+                }
+                if hi <= lo {
+                    ok = false;
+                    why = format!("token at {} consumes nothing", lo);
+                    break;
+                }
+                if !text.is_char_boundary(*hi) {
+                    ok = false;
+                    why = "token ends inside a character".into();
+                    break;
+                }
+                let t = &text[*lo..*hi];
+                match tok {
+                    Tok::Word(s) | Tok::Whitespace(s) | Tok::Comment(s) => {
+                        if s.as_str() != t || s.range() != (*lo..*hi) {
+                            ok = false;
+                            why = format!("token text {:?} differs from last_substr {:?}", s.as_str(), t);
+                            break;
+                        }
+                    }
+                    _ => (),
+                }
+                match tok {
+                    Tok::Whitespace(_) => {
+                        let maximal = text[*hi..].chars().next().map(|c| !is_ascii_ws(c)).unwrap_or(true);
+                        if !t.chars().all(is_ascii_ws) || !maximal {
+                            ok = false;
+                            why = "whitespace token is not a maximal run of ASCII whitespace".into();
+                            break;
+                        }
+                    }
+                    Tok::Word(_) => {
+                        let maximal = text[*hi..].chars().next().map(is_ascii_ws).unwrap_or(true);
+                        if t.chars().any(is_ascii_ws) || !maximal {
+                            ok = false;
+                            why = "word token is not a maximal blank-free run".into();
+                            break;
+                        }
+                    }
+                    Tok::Literal(Cell::Real(r)) => {
+                        let cleaned: String = t.chars().filter(|c| *c != '_').collect();
+                        match cleaned.parse::<f64>() {
+                            Ok(x) if x.to_bits() == r.to_bits() => (),
+                            other => {
+                                ok = false;
+                                why = format!("real literal {:?} read as {:?}, str::parse gives {:?}", t, r, other);
+                                break;
+                            }
+                        }
+                    }
+                    _ => (),
+                }
+                at = *hi;
+            }
+            Seen::Eof => {
+                if at != text.len() {
+                    ok = false;
+                    why = format!("EndOfInput at {} of {}", at, text.len());
+                }
+            }
+            Seen::Err { lo, hi, .. } => {
+                // the failing token starts where the last good one ended: text[0..lo) was reproduced
+                if *lo != at || hi < lo || *hi > text.len() {
+                    ok = false;
+                    why = format!("failing token range {}..{} does not continue at {}", lo, hi, at);
+                }
+            }
+            Seen::Panic => (),
+        }
+    }
+    ctx.check(ok, case, || format!("token ranges tile the input prefix ({})", why), obs);
+}
+
+// ---------------------------------------------------------------- generators
+
+const WS: &[&str] = &[" ", " ", " ", "\n", "\t", "\r", "\r\n", "\x0c", "  ", "\n\n"];
+const ODD: &[&str] = &["\x0b", "\u{a0}", "\u{2028}", "\u{85}", "\u{3000}", "\0", "\u{feff}"];
+const MB: &[&str] = &["é", "ß", "日", "本", "😀", "“", "”", "λ", "\u{301}", "𝔘"];
+
+fn pk<'a>(r: &mut Rng, xs: &[&'a str]) -> &'a str {
+    xs[r.below(xs.len())]
+}
+
+fn ws(r: &mut Rng) -> String {
+    let mut s = String::new();
+    for _ in 0..1 + r.below(2) {
+        s.push_str(pk(r, WS));
+    }
+    s
+}
+
+fn arbitrary(r: &mut Rng) -> String {
+    let n = r.below(24);
+    let mut s = String::new();
+    for _ in 0..n {
+        match r.below(12) {
+            0..=2 => s.push((0x21 + r.below(0x5e)) as u8 as char),
+            3 | 4 => s.push_str(pk(r, WS)),
+            5 => s.push_str(pk(r, MB)),
+            6 => s.push_str(pk(r, ODD)),
+            7 => s.push_str(pk(r, &["\"", "\\", "|", "\\(", "\\)", "\\ ", " \\) ", "“", "”"])),
+            8 => s.push_str(pk(r, &["0", "1", "9", "-", "+", "_", ".", "x", "b", "0x", "0b", "f", "e"])),
+            9 => s.push(char::from_u32(r.below(0x11_0000) as u32).unwrap_or('?')),
+            10 => s.push((r.below(0x20)) as u8 as char),
+            _ => s.push_str(pk(r, &["a", "dup", ":", ";", "[", "]", "{", "}", "(", ")"])),
+        }
+    }
+    s
+}
+
+fn digits_of(mut v: u128, radix: u32, upper: bool) -> String {
+    if v == 0 {
+        return "0".into();
+    }
+    let mut d = Vec::new();
+    while v > 0 {
+        let x = (v % radix as u128) as u32;
+        let c = std::char::from_digit(x, radix).unwrap();
+        d.push(if upper { c.to_ascii_uppercase() } else { c });
+        v /= radix as u128;
+    }
+    d.iter().rev().collect()
+}
+
+fn sprinkle_underscores(r: &mut Rng, s: &str) -> String {
+    let mut o = String::new();
+    for (i, c) in s.chars().enumerate() {
+        o.push(c);
+        // never right after a leading sign: `-_1` is a word, not a number
+        if !(i == 0 && (c == '-' || c == '+')) && r.chance(15) {
+            o.push('_');
+        }
+    }
+    o
+}
+
+/// how the generator spelled a number and what it must denote
+struct NumSpelling {
+    text: String,
+    /// Some(Some(v)): must read as v; Some(None): must be rejected (out of range); None: no claim
+    expect: Option<Option<i128>>,
+}
+
+/// a well-formed integer spelling of a magnitude up to and beyond the i128 range
+fn int_spelling(r: &mut Rng) -> NumSpelling {
+    // magnitude as u128 plus optional extra high digit(s) to go beyond the range
+    let mag: u128 = match r.below(8) {
+        0 => gen_int(r).unsigned_abs(),
+        1 => (1u128 << 127) - 1,
+        2 => 1u128 << 127,
+        3 => (1u128 << 127) + 1,
+        4 => u128::MAX,
+        5 => r.below(300) as u128,
+        6 => r.next_u128() >> r.below(128),
+        _ => r.next_u128(),
+    };
+    let neg = r.bool();
+    let sign = if neg { "-" } else if r.chance(25) { "+" } else { "" };
+    let style = r.below(4); // 0 dec, 1 0x, 2 0b, 3 leading-zero hex
+    let radix = [10, 16, 2, 16][style];
+    let upper = r.bool();
+    let mut body = digits_of(mag, radix, upper);
+    let beyond = r.chance(8);
+    if beyond {
+        // one more leading digit: certainly above 2^128 > any i128
+        body = format!("{}{}", if radix == 2 { "1" } else { "7" }, "0".repeat(body.len().max(if radix == 2 { 128 } else if radix == 16 { 32 } else { 39 })));
+    }
+    if style == 0 {
+        // a decimal spelling must not start with 0 (that would mean hex) unless it is exactly "0"
+        if body.starts_with('0') && body.len() > 1 {
+            body = body.trim_start_matches('0').to_string();
+        }
+    }
+    if r.chance(40) {
+        body = sprinkle_underscores(r, &body);
+    }
+    // leading-zero hex whose first digit is a lowercase `b` would be the binary prefix: spell it `00b…`
+    let prefix = if style == 3 && body.starts_with('b') { "00" } else { ["", "0x", "0b", "0"][style] };
+    // leading-zero hex: extra zeros are harmless
+    let text = format!("{}{}{}", sign, prefix, body);
+    let expect = if beyond {
+        Some(None)
+    } else if neg {
+        if mag <= 1u128 << 127 { Some(Some((mag as i128).wrapping_neg())) } else { Some(None) }
+    } else if mag < 1u128 << 127 {
+        Some(Some(mag as i128))
+    } else {
+        Some(None)
+    };
+    // decimal "0" followed by underscores etc. is fine; a decimal body that is "0" with style 0 and
+    // digits after would be hex — excluded above
+    NumSpelling { text, expect }
+}
+
+/// odd numeric spellings: no claim about the value, the model must still agree
+fn odd_number(r: &mut Rng) -> String {
+    let pool = [
+        "0x", "0b", "-0x", "+0b", "0x-1", "0x+5", "-0x-1", "0b2", "0b102", "0xg", "0_", "_0", "0__f", "00", "007", "0e5", "1e5", "0x1.5", "0b1.1", "1.", "1..2", "1.2.3",
+        "1.5e", "1.5e+", "1.5e3", "1.5E-3", "-1.5e+308", "1.e5", "+.5", "-.5", ".5", "1_.5", "1._5", "0._", "1.5_e_3", "12-", "1\"a\"", "1|ff|", "-", "+", "--1", "+-1", "-+1",
+        "0x_", "0b_", "0xé", "1é", "1.é", "9日", "-0", "+0", "-0.0", "0.0", "1.7976931348623157e308", "1.7976931348623159e308", "2e308.0", "4.9e-324", "2.4703282292062327e-324",
+        "2.4703282292062328e-324", "0.1", "0.30000000000000004", "9007199254740993.0", "9007199254740992.5", "1.0e400", "1.0e-400", "1.0e99999999999", "1.0e-99999999999",
+        "123456789012345678901234567890123456789012345678901234567890.0", "0.000000000000000000000000000000000000000000000000000001", "1.inf", "1.nan", "0b", "0B1", "0X1F",
+        "1x", "0xx", "0bb", "-0b101", "+0x7f", "0b1_0", "1__2", "0x7fffffffffffffffffffffffffffffff", "0x80000000000000000000000000000000", "-0x80000000000000000000000000000000",
+        "-0x80000000000000000000000000000001", "0ffffffffffffffffffffffffffffffff", "5.", "5.e", "5.e-", "5.0e-0", "1.0E+2", "1.0e1.0", "1.0ee1", "1.0e1e1", "1.-5", "1.+5",
+    ];
+    let mut s = r.pick(&pool).to_string();
+    if r.chance(20) {
+        s = sprinkle_underscores(r, &s);
+    }
+    s
+}
+
+fn random_real_spelling(r: &mut Rng) -> String {
+    let mut s = String::new();
+    if r.chance(40) {
+        s.push(if r.bool() { '-' } else { '+' });
+    }
+    let ni = if r.chance(10) { 40 } else { 6 };
+    for _ in 0..1 + r.below(ni) {
+        s.push((b'0' + r.below(10) as u8) as char);
+    }
+    s.push('.');
+    let nf = if r.chance(10) { 40 } else { 8 };
+    for _ in 0..r.below(nf) {
+        s.push((b'0' + r.below(10) as u8) as char);
+    }
+    if r.chance(45) {
+        s.push(if r.bool() { 'e' } else { 'E' });
+        if r.chance(60) {
+            s.push(if r.bool() { '-' } else { '+' });
+        }
+        s.push_str(&format!("{}", match r.below(4) { 0 => r.below(20), 1 => 290 + r.below(50), 2 => r.below(400), _ => r.below(5) }));
+    }
+    if s.starts_with("0") && !s.starts_with("0.") && r.bool() {
+        // keep leading-zero forms too (they are not hex once a dot is present)
+    }
+    if r.chance(15) {
+        s = sprinkle_underscores(r, &s);
+    }
+    s
+}
+
+/// from a shortest-round-trip print of a random double (always contains a '.' or gets one)
+fn printed_real(r: &mut Rng) -> String {
+    let x = gen_real(r);
+    if !x.is_finite() {
+        return "1.5".into();
+    }
+    let s = if r.bool() { format!("{:?}", x) } else { format!("{:e}", x) };
+    if s.contains('.') { s } else { s.replacen('e', ".0e", 1) }
+}
+
+struct StrSpelling {
+    text: String,
+    expect: Option<String>, // decoded content when the literal is well-formed
+}
+
+fn str_spelling(r: &mut Rng) -> StrSpelling {
+    let open = if r.chance(25) { '“' } else { '"' };
+    let close = if r.chance(25) { '”' } else { '"' };
+    let mut text = String::new();
+    let mut val = String::new();
+    text.push(open);
+    for _ in 0..r.below(10) {
+        match r.below(12) {
+            0 => { text.push_str("\\\\"); val.push('\\'); }
+            1 => { text.push_str("\\\""); val.push('"'); }
+            2 => { text.push_str("\\n"); val.push('\n'); }
+            3 => { text.push_str("\\r"); val.push('\r'); }
+            4 => { text.push_str("\\t"); val.push('\t'); }
+            5 => { let w = *r.pick(WS); text.push_str(w); val.push_str(w); }
+            6 => { let w = *r.pick(MB); if w != "”" { text.push_str(w); val.push_str(w); } }
+            7 => { let w = *r.pick(ODD); text.push_str(w); val.push_str(w); }
+            8 => { let w = *r.pick(&["|", "'", "\\(", "[", "0x", "#"]); if !w.contains('\\') { text.push_str(w); val.push_str(w); } }
+            _ => { let c = (0x23 + r.below(0x39)) as u8 as char; if c != '\\' { text.push(c); val.push(c); } }
+        }
+    }
+    text.push(close);
+    StrSpelling { text, expect: Some(val) }
+}
+
+fn broken_str(r: &mut Rng) -> String {
+    let base = str_spelling(r).text;
+    match r.below(6) {
+        0 => base[..base.len() - base.chars().last().unwrap().len_utf8()].to_string(), // unterminated
+        1 => format!("{}x", base),                                                       // no separator
+        2 => {
+            let esc = *r.pick(&["\\x", "\\0", "\\u{41}", "\\'", "\\é", "\\ ", "\\\n", "\\“"]);
+            let q = base.chars().next().unwrap();
+            format!("{}a{}b\"", q, esc)
+        }
+        3 => format!("{}\\", &base[..base.len() - base.chars().last().unwrap().len_utf8()]), // ends in backslash
+        4 => "\"".to_string(),
+        _ => format!("{}{}", base, r.pick(&["\"", "”", "|", "1", "\u{b}", "\u{a0}"])),
+    }
+}
+
+struct BitsSpelling {
+    text: String,
+    expect: Vec<bool>,
+}
+
+fn bits_spelling(r: &mut Rng) -> BitsSpelling {
+    let nb = if r.chance(10) { 300 } else { 40 };
+    let bits = gen_bits(r, nb);
+    let mut text = String::from("|");
+    let mut i = 0;
+    while i < bits.len() {
+        if r.chance(20) {
+            text.push_str(pk(r, WS));
+        }
+        if i + 4 <= bits.len() && r.chance(60) {
+            let v = bits[i..i + 4].iter().fold(0u32, |a, b| a * 2 + *b as u32);
+            let c = std::char::from_digit(v, 16).unwrap();
+            text.push(if r.bool() { c.to_ascii_uppercase() } else { c });
+            i += 4;
+        } else {
+            text.push(if bits[i] { 'x' } else { '.' });
+            i += 1;
+        }
+    }
+    if r.chance(20) {
+        text.push_str(pk(r, WS));
+    }
+    text.push('|');
+    BitsSpelling { text, expect: bits }
+}
+
+fn broken_bits(r: &mut Rng) -> String {
+    let b = bits_spelling(r).text;
+    match r.below(5) {
+        0 => b[..b.len() - 1].to_string(),
+        1 => format!("{}{}|", &b[..b.len() - 1], r.pick(&["g", "X", "_", "-", "é", "\u{b}", "\"", "0x", "\\"])),
+        2 => "|".to_string(),
+        3 => format!("{}{}", b, r.pick(&["1", "|", "x", "\"a\""])), // nothing is required after the closing bar
+        _ => format!("|{}", &b[1..b.len() - 1]),
+    }
+}
+
+fn comment_piece(r: &mut Rng) -> String {
+    let pool = [
+        "\\ line comment", "\\", "\\ \\( not multi", "\\( multi \\)", "\\( \\)", "\\(\\)", "\\( a\\) still \\) ", "\\( \n \\\\) x \\)", "\\( \\ \\)", "\\( \\)x \\)", "\\( unterminated",
+        "\\(", "\\( \\", "\\( \\)", "\\(\t\\)\r", "\\( \\)\u{b}", "\\( é \\)", "\\(( \\)", "\\)", "( \\)", "\\\\", "\\ é日\r\n", "\\( \\(\\) \\)", "\\( \\( \\) \\)", "\\( \u{b}\\) \\)",
+    ];
+    r.pick(&pool).to_string()
+}
+
+fn soup(r: &mut Rng, dict: &[String]) -> String {
+    let mut s = String::new();
+    if r.chance(30) {
+        s.push_str(&ws(r));
+    }
+    for _ in 0..r.below(10) {
+        match r.below(14) {
+            0..=3 => s.push_str(r.pick(dict).as_str()),
+            4 => s.push_str(&int_spelling(r).text),
+            5 => s.push_str(&random_real_spelling(r)),
+            6 => s.push_str(&str_spelling(r).text),
+            7 => s.push_str(&bits_spelling(r).text),
+            8 => s.push_str(&comment_piece(r)),
+            9 => s.push_str(&odd_number(r)),
+            10 => s.push_str(pk(r, MB)),
+            11 => s.push_str(&format!("{}", r.range(-100, 100))),
+            12 => s.push_str(pk(r, &["[", "]", "{", "}", ":", ";", "(", ")", "if", "then", "#", "."])),
+            _ => s.push_str(&printed_real(r)),
+        }
+        if r.chance(93) {
+            s.push_str(&ws(r));
+        }
+    }
+    s
+}
+
+fn malformed(r: &mut Rng) -> String {
+    let mut s = String::new();
+    for _ in 0..1 + r.below(4) {
+        match r.below(6) {
+            0 => s.push_str(&broken_str(r)),
+            1 => s.push_str(&broken_bits(r)),
+            2 => s.push_str(&comment_piece(r)),
+            3 => s.push_str(&odd_number(r)),
+            4 => s.push_str(&arbitrary(r)),
+            _ => s.push_str(pk(r, ODD)),
+        }
+        if r.chance(70) {
+            s.push_str(&ws(r));
+        }
+    }
+    s
+}
+
+// ---------------------------------------------------------------- cases
+
+fn lex_case(ctx: &mut Ctx, text: &str) -> Vec<Seen> {
+    let seen = drive(text, false);
+    ctx.case(format!("C16 lex {}", hext(text)), render(text, &seen));
+    oracle_text(ctx, text, &seen);
+    match seen.last().unwrap() {
+        Seen::Eof => ctx.tag("end:eof"),
+        Seen::Err { msg, .. } => ctx.tag(&format!("end:err:{}", us(msg))),
+        _ => ctx.tag("end:panic"),
+    }
+    for s in &seen {
+        if let Seen::Tok { tok, .. } = s {
+            ctx.tag(match tok {
+                Tok::Word(_) => "tok:word",
+                Tok::Whitespace(_) => "tok:ws",
+                Tok::Comment(_) => "tok:comment",
+                Tok::Literal(Cell::Int(_)) => "tok:int",
+                Tok::Literal(Cell::Real(_)) => "tok:real",
+                Tok::Literal(Cell::Str(_)) => "tok:str",
+                Tok::Literal(Cell::Bitstr(_)) => "tok:bitstr",
+                _ => "tok:other",
+            });
+        }
+    }
+    seen
+}
+
+fn nonws_case(ctx: &mut Ctx, text: &str) {
+    let seen = drive(text, true);
+    ctx.case(format!("C16 nonws {}", hext(text)), render(text, &seen));
+    // next_nonws must report exactly the non-blank, non-comment tokens of next()
+    let full = drive(text, false);
+    let filt: Vec<String> = full
+        .iter()
+        .filter(|s| !matches!(s, Seen::Tok { tok: Tok::Whitespace(_), .. } | Seen::Tok { tok: Tok::Comment(_), .. }))
+        .map(|s| render(text, std::slice::from_ref(s)))
+        .collect();
+    let got: Vec<String> = seen.iter().map(|s| render(text, std::slice::from_ref(s))).collect();
+    ctx.check(filt == got, || format!("C16 nonws {}", hext(text)), || filt.join(" "), || got.join(" "));
+}
+
+/// the first non-blank token of ` <spelling> ` (surrounded by random blanks)
+fn single_literal(ctx: &mut Ctx, spelling: &str) -> (String, Vec<Seen>) {
+    let pre = if ctx.rng.bool() { ws(&mut ctx.rng) } else { String::new() };
+    let post = if ctx.rng.chance(70) { ws(&mut ctx.rng) } else { String::new() };
+    let text = format!("{}{}{}", pre, spelling, post);
+    let seen = lex_case(ctx, &text);
+    (text, seen)
+}
+
+fn first_nonws(seen: &[Seen]) -> Option<&Seen> {
+    seen.iter().find(|s| !matches!(s, Seen::Tok { tok: Tok::Whitespace(_), .. }))
+}
+
+fn literal_cases(ctx: &mut Ctx) {
+    match ctx.rng.below(6) {
+        0 | 1 => {
+            let sp = int_spelling(&mut ctx.rng);
+            ctx.tag("lit:int-spelling");
+            let (text, seen) = single_literal(ctx, &sp.text);
+            let got = first_nonws(&seen).cloned();
+            let case = || format!("C16 lex {}   (spelling {:?})", hext(&text), sp.text);
+            match sp.expect {
+                Some(Some(v)) => {
+                    ctx.tag("lit:int:in-range");
+                    let ok = matches!(&got, Some(Seen::Tok { tok: Tok::Literal(Cell::Int(i)), .. }) if *i == v);
+                    ctx.check(ok, case, || format!("integer literal {}", v), || format!("{:?}", got));
+                }
+                Some(None) => {
+                    ctx.tag("lit:int:out-of-range");
+                    let ok = matches!(&got, Some(Seen::Err { msg, .. }) if msg == "parse int error");
+                    ctx.check(ok, case, || "rejected with parse int error (outside i128)".into(), || format!("{:?}", got));
+                }
+                None => (),
+            }
+        }
+        2 => {
+            let s = if ctx.rng.bool() { random_real_spelling(&mut ctx.rng) } else { printed_real(&mut ctx.rng) };
+            ctx.tag("lit:real-spelling");
+            let (text, seen) = single_literal(ctx, &s);
+            let got = first_nonws(&seen).cloned();
+            // a spelling digits '.' digits [exp] is a real and equals Rust's parse of it without `_`
+            let cleaned: String = s.chars().filter(|c| *c != '_').collect();
+            if let Ok(x) = cleaned.parse::<f64>() {
+                let ok = matches!(&got, Some(Seen::Tok { tok: Tok::Literal(Cell::Real(r)), .. }) if r.to_bits() == x.to_bits());
+                ctx.check(ok, || format!("C16 lex {}", hext(&text)), || format!("real literal {:?} = bits {:016x}", x, x.to_bits()), || format!("{:?}", got));
+            }
+        }
+        3 => {
+            let sp = str_spelling(&mut ctx.rng);
+            ctx.tag("lit:str-spelling");
+            let (text, seen) = single_literal(ctx, &sp.text);
+            let got = first_nonws(&seen).cloned();
+            if let Some(v) = &sp.expect {
+                let ok = matches!(&got, Some(Seen::Tok { tok: Tok::Literal(Cell::Str(s)), .. }) if s.as_str() == v.as_str());
+                ctx.check(ok, || format!("C16 lex {}", hext(&text)), || format!("string literal {:?}", v), || format!("{:?}", got));
+            }
+        }
+        4 => {
+            let sp = bits_spelling(&mut ctx.rng);
+            ctx.tag("lit:bits-spelling");
+            let (text, seen) = single_literal(ctx, &sp.text);
+            let got = first_nonws(&seen).cloned();
+            let want: String = sp.expect.iter().map(|b| if *b { '1' } else { '0' }).collect();
+            let ok = matches!(&got, Some(Seen::Tok { tok: Tok::Literal(Cell::Bitstr(b)), .. }) if canon::bits_of(b) == want);
+            ctx.check(ok, || format!("C16 lex {}", hext(&text)), || format!("bit-string {}", want), || format!("{:?}", got));
+        }
+        _ => {
+            let s = odd_number(&mut ctx.rng);
+            ctx.tag("lit:odd-number");
+            single_literal(ctx, &s);
+        }
+    }
+}
+
+// ---------------------------------------------------------------- print → read
+
+fn gen_leaf(r: &mut Rng) -> Cell {
+    if r.chance(55) {
+        Cell::Int(gen_int(r))
+    } else {
+        let nb = if r.chance(10) { 300 } else { 24 };
+        Cell::Bitstr(bitstr_from_bits(&gen_bits(r, nb)))
+    }
+}
+
+fn gen_value(r: &mut Rng, depth: usize) -> Cell {
+    match r.below(if depth == 0 { 2 } else { 5 }) {
+        0 | 1 => gen_leaf(r),
+        2 | 3 => {
+            let mut v = Xvec::new();
+            for _ in 0..r.below(5) {
+                v.push_back_mut(gen_value(r, depth - 1));
+            }
+            Cell::Vector(v)
+        }
+        _ => {
+            // integer keys only: bit-string / collection keys all compare Equal under `Ord for Cell`
+            // (the C12 finding), so such maps are not faithful values to begin with
+            let mut m = Xmap::new();
+            for _ in 0..r.below(4) {
+                m.insert_mut(Cell::Int(gen_int(r)), gen_value(r, depth - 1));
+            }
+            Cell::Map(m)
+        }
+    }
+}
+
+fn print_case(ctx: &mut Ctx, base: &Xstate) {
+    let v = gen_value(&mut ctx.rng.fork(), 2);
+    ctx.rng.next_u64();
+    let raw_default = 10 | 0x100;
+    let printed = crate::guarded(|| base.format_cell(&v));
+    let txt = match printed {
+        Some(Ok(s)) => s,
+        _ => {
+            ctx.oracle_fail(format!("C16 print {} {}", raw_default, canon::cell(&v)), "a text".into(), "panic/err".into());
+            return;
+        }
+    };
+    ctx.tag(match &v { Cell::Int(_) => "print:int", Cell::Bitstr(_) => "print:bitstr", Cell::Vector(_) => "print:vec", _ => "print:map" });
+    ctx.case(format!("C16 print {} {}", raw_default, canon::cell(&v)), format!("ok {}", hext(&txt)));
+    // the print, lexed (token level statement of the round trip)
+    lex_case(ctx, &txt);
+    // print → eval → equal
+    let mut xs = base.clone();
+    let r = crate::guarded(|| {
+        let res = xs.eval(&txt);
+        (res, canon::stack(&xs))
+    });
+    let case = || format!("print→read of {}   text {:?}", canon::cell(&v), txt);
+    match r {
+        Some((Ok(()), st)) if st.len() == 1 => {
+            let same = st[0] == v && canon::cell(&st[0]) == canon::cell(&v);
+            ctx.check(same, case, || canon::cell(&v), || canon::cell(&st[0]));
+            // and through the language's own `equal?`
+            let mut ys = base.clone();
+            let r2 = crate::guarded(|| {
+                ys.push_data(v.clone()).unwrap();
+                let res = ys.eval(&format!("{} equal?", txt));
+                (res, canon::stack(&ys))
+            });
+            let ok2 = matches!(&r2, Some((Ok(()), st)) if st.len() == 1 && st[0] == Cell::Flag(true));
+            ctx.check(ok2, case, || "equal? → true".into(), || format!("{:?}", r2.map(|x| canon::stack_str(&x.1))));
+        }
+        other => ctx.oracle_fail(case(), "evaluates to exactly one value".into(), format!("{:?}", other.map(|x| (x.0.err().map(|e| canon::err(&e)), canon::stack_str(&x.1))))),
+    }
+}
+
+/// non-default flags: the printer is modelled in every base; reading back is only claimed for the default
+fn print_flags_case(ctx: &mut Ctx, base: &Xstate) {
+    let (raw, v) = {
+        let r = &mut ctx.rng;
+        let bases = [2usize, 8, 10, 16, 3, 0, 36];
+        let raw = *r.pick(&bases) | if r.bool() { 0x100 } else { 0 } | if r.bool() { 0x800 } else { 0 } | if r.chance(30) { 0x200 } else { 0 };
+        let inner = match r.below(6) {
+            0..=2 => Cell::Int(gen_int(r)),
+            3 => gen_value(r, 1),
+            4 => Cell::from(*r.pick(&["", "abc", "a\"b\\c", "tab\there", "nl\n", "cr\r", "it's", "x y", "\0"])),
+            _ => r.pick(&[Cell::Nil, Cell::Flag(true), Cell::Flag(false)]).clone(),
+        };
+        (raw, inner.insert_tag(Cell::from("#fmt"), Cell::Int(raw as i128)))
+    };
+    let printed = crate::guarded(|| base.format_cell(&v));
+    ctx.tag(&format!("print:flags:base{}", raw & 0xff));
+    let imp = match &printed {
+        Some(Ok(s)) => format!("ok {}", hext(&s)),
+        Some(Err(ref e)) => format!("err {}", canon::err(e)),
+        None => "panic".into(),
+    };
+    ctx.check(imp != "panic", || format!("C16 print {} {}", raw, canon::cell(&v)), || "no panic".into(), || imp.clone());
+    ctx.case(format!("C16 print {} {}", raw, canon::cell(&v)), imp);
+    // print → read under these flags (show_tags excluded: that prints a tagged value, not an
+    // integer / bit-string / vector / map). Decided from the input alone: the printer is known not to
+    // be invertible for base 2/8/16 when the prefix is off, for every ^oct print (`0o…` is no literal)
+    // and for negative integers (two's-complement pattern) — those failures carry `[nondefault-fmt]`.
+    let roundtrippable = matches!(v.value(), Cell::Int(_) | Cell::Bitstr(_) | Cell::Vector(_) | Cell::Map(_)) && raw & 0x200 == 0;
+    if let (true, Some(Ok(txt))) = (roundtrippable, &printed) {
+        let b = raw & 0xff;
+        let known = (b == 2 || b == 8 || b == 16) && (raw & 0x100 == 0 || b == 8 || has_neg_int(&v));
+        let pfx = if known { "[nondefault-fmt] " } else { "" };
+        ctx.tag(if known { "print:flags:rt-known-noninvertible" } else { "print:flags:rt-claimed" });
+        let mut xs = base.clone();
+        let r = crate::guarded(|| {
+            let res = xs.eval(txt);
+            (res, canon::stack(&xs))
+        });
+        let case = || format!("{}print→read raw flags {} of {}   text {:?}", pfx, raw, canon::cell(&v), txt);
+        match r {
+            Some((Ok(()), st)) if st.len() == 1 => {
+                let same = st[0] == v && canon::cell(&st[0]) == canon::cell(v.value());
+                if !same {
+                    ctx.tag(if known { "print:flags:rt-fail-known" } else { "print:flags:rt-fail-UNEXPECTED" });
+                }
+                ctx.check(same, case, || canon::cell(v.value()), || canon::cell(&st[0]));
+            }
+            other => {
+                ctx.tag(if known { "print:flags:rt-fail-known" } else { "print:flags:rt-fail-UNEXPECTED" });
+                ctx.oracle_fail(case(), "evaluates to exactly one equal value".into(), format!("{:?}", other.map(|x| (x.0.err().map(|e| canon::err(&e)), canon::stack_str(&x.1)))))
+            }
+        }
+    }
+}
+
+fn has_neg_int(c: &Cell) -> bool {
+    match c.value() {
+        Cell::Int(i) => *i < 0,
+        Cell::Vector(v) => v.iter().any(has_neg_int),
+        Cell::Map(m) => m.iter().any(|(k, v)| has_neg_int(k) || has_neg_int(v)),
+        _ => false,
+    }
+}
+
+// ---------------------------------------------------------------- locations
+
+fn loc_text(r: &mut Rng) -> String {
+    let mut s = String::new();
+    let breaks = ["\n", "\r\n", "\r", "\n\n", "\n\r", "\r\r\n"];
+    for _ in 0..r.below(6) {
+        for _ in 0..r.below(5) {
+            match r.below(6) {
+                0 => s.push('\t'),
+                1 => s.push_str(pk(r, MB)),
+                2 => s.push(' '),
+                3 => s.push_str(pk(r, ODD)),
+                _ => s.push((0x21 + r.below(0x5e)) as u8 as char),
+            }
+        }
+        if r.chance(85) {
+            s.push_str(pk(r, &breaks));
+        }
+    }
+    s
+}
+
+fn loc_case(ctx: &mut Ctx, text: &str, off: usize, len: usize) {
+    let src = Xstr::from(text);
+    let r = crate::guarded(|| {
+        let tok = src.substr(off..off + len);
+        let sources = vec![(Xstr::from("<a>"), Xstr::from(text)), (Xstr::from("<b>"), src.clone())];
+        token_location(&sources, &tok)
+    });
+    let imp = match &r {
+        None => "panic".to_string(),
+        Some(None) => "none".to_string(),
+        Some(Some(l)) => {
+            let wr = l.whole_line.range();
+            format!("ok {} {} {} {} {}", l.line, l.col, wr.start, wr.end, hext(l.whole_line.as_str()))
+        }
+    };
+    ctx.case(format!("C16 loc {} {}", hext(text), off), imp.clone());
+    ctx.tag(if text.is_empty() { "loc:empty-text" } else if off == text.len() { "loc:at-end" } else { "loc:inside" });
+    // independent recount: lines are separated by \n, \r\n or \r; `line` counts \n only (the statement)
+    let case = || format!("C16 loc {} {}", hext(text), off);
+    match &r {
+        Some(Some(l)) => {
+            let before = &text[..off];
+            let line = before.matches('\n').count();
+            let seg_start = before.rfind(|c| c == '\n' || c == '\r').map(|i| i + 1).unwrap_or(0);
+            let col = text[seg_start..off].chars().count();
+            let seg_end = text[off..].find(|c| c == '\n' || c == '\r').map(|i| off + i).unwrap_or(text.len());
+            let whole = &text[seg_start..seg_end];
+            let ok = l.line == line && l.col == col && l.whole_line.as_str() == whole && l.filename.as_str() == "<b>";
+            // the quoted token occurs at (line, col): skip `col` chars of the quoted line
+            let at: String = l.whole_line.chars().skip(l.col).collect();
+            let tok = &text[off..off + len];
+            let tok_line_part = tok.split(|c| c == '\n' || c == '\r').next().unwrap();
+            let ok2 = at.starts_with(tok_line_part);
+            ctx.check(ok && ok2, case, || format!("line {} col {} whole_line {:?} name <b>", line, col, whole), || format!("line {} col {} whole_line {:?} name {}", l.line, l.col, l.whole_line.as_str(), l.filename));
+        }
+        _ => ctx.oracle_fail(case(), "a location".into(), imp),
+    }
+}
+
+/// token_location on an empty source text (reachable: an error raised while the only source is "")
+fn loc_empty_text(ctx: &mut Ctx) {
+    let src = Xstr::from("");
+    let r = crate::guarded(|| {
+        let tok = src.substr(0..0);
+        token_location(&[(Xstr::from("<e>"), src.clone())], &tok).map(|l| (l.line, l.col, l.whole_line.to_string()))
+    });
+    let imp = match &r {
+        None => "panic".to_string(),
+        Some(None) => "none".to_string(),
+        Some(Some((l, c, w))) => format!("ok {} {} 0 0 {}", l, c, hext(w)),
+    };
+    ctx.tag("loc:empty-text");
+    ctx.case("C16 loc x 0".to_string(), imp.clone());
+    ctx.check(r == Some(Some((0, 0, String::new()))), || "C16 loc x 0   (token_location of the empty token in an empty source)".into(), || "line 0 col 0 whole_line \"\"".into(), || imp.clone());
+}
+
+// ---------------------------------------------------------------- exhaustive small scope
+
+fn exhaustive(ctx: &mut Ctx, alphabet: &[&str], maxlen: usize) {
+    let k = alphabet.len();
+    let mut idx: Vec<usize> = Vec::new();
+    loop {
+        let text: String = idx.iter().map(|i| alphabet[*i]).collect();
+        let seen = drive(&text, false);
+        ctx.case(format!("C16 lex {}", hext(&text)), render(&text, &seen));
+        oracle_text(ctx, &text, &seen);
+        ctx.tag("exhaustive");
+        // next index vector (odometer), growing in length
+        let mut i = idx.len();
+        loop {
+            if i == 0 {
+                idx = vec![0; idx.len() + 1];
+                break;
+            }
+            i -= 1;
+            if idx[i] + 1 < k {
+                idx[i] += 1;
+                for j in i + 1..idx.len() {
+                    idx[j] = 0;
+                }
+                break;
+            }
+        }
+        if idx.len() > maxlen {
+            break;
+        }
+    }
+}
+
+pub fn run(ctx: &mut Ctx) {
+    let base = Xstate::boot().unwrap();
+    let dict: Vec<String> = base.word_list().iter().map(|s| s.to_string()).collect();
+    let n = ctx.n;
+
+    // fixed seeds: the snippets of lex.rs's own tests and the corner cases of the model
+    let fixed = [
+        "", " ", "\n\t\\ 567\n\\", "a//b", " abcde \n123", "({aa : +[bb]cc)", " \"))\n[[\" ", " \" xx\n ", "\\(\\)", "\\(1 \\)", "\\(( \n", "(\\\n\\)", "\\( 1\\)", "\\( \\)) \n",
+        "\\( \n \\\\)", " + -f -1 -x1 -0x1 +0", " --1 -- + - . .0  -_", "0x00_ff 123_0_00_ 0b_1_1 0_ 0_.1", "0f 0_ff", "12-", "-0x", "-0b", "0x0.1", "1.2 0.1_1",
+        "\"\\\\ \\\" \\r \\t \\n\"", " \" \\x \" ", "\"aaa\\", "\"aaa\\\"", " 1\"a\" ", " \"abc\"2 ", "|FF|  |x..x| | 77 .. f |", " | f", " | ff g| ", "\u{b}", "a\u{b}b", "“a” “b\" \"c”",
+        "\\( \\)", "\\( \\)\n", "\\( x \\)\u{b}\\) ", "\\", "\\\n", "\\x", "|", "||", "|| ||x", "\"\"", "\"\"\"", "é", "1é", "0x-1", "-0x-1", "0x+f",
+        "170141183460469231731687303715884105727", "170141183460469231731687303715884105728", "-170141183460469231731687303715884105728", "-170141183460469231731687303715884105729",
+    ];
+    for t in fixed {
+        lex_case(ctx, t);
+        nonws_case(ctx, t);
+        ctx.tag("src:fixed");
+    }
+    // exhaustive small scope
+    let alpha: &[&str] = &["\\", "(", ")", " ", "\n", "\"", "|", "0", "x", "-", ".", "_", "1", "é", "b", "\r"];
+    if ctx.thorough {
+        exhaustive(ctx, alpha, 4);
+        exhaustive(ctx, &["\\", "(", ")", " ", "\"", "|", "0", "x", "-", ".", "1", "\n"], 5);
+    } else {
+        exhaustive(ctx, alpha, 3);
+    }
+    // generated texts
+    for _ in 0..n {
+        let which = ctx.rng.below(100);
+        let text = if which < 55 {
+            ctx.tag("src:soup");
+            soup(&mut ctx.rng, &dict)
+        } else if which < 85 {
+            ctx.tag("src:arbitrary");
+            arbitrary(&mut ctx.rng)
+        } else {
+            ctx.tag("src:malformed");
+            malformed(&mut ctx.rng)
+        };
+        lex_case(ctx, &text);
+        if ctx.rng.chance(25) {
+            nonws_case(ctx, &text);
+        }
+    }
+    // single literals with a known denotation
+    for _ in 0..n {
+        literal_cases(ctx);
+    }
+    // every boundary integer, printed in decimal, reads back
+    for v in boundary_ints() {
+        for sp in [format!("{}", v), format!("+{}", v.unsigned_abs()), format!("{:#x}", v.unsigned_abs()), format!("{:#b}", v.unsigned_abs()), format!("0{:x}", v.unsigned_abs())] {
+            let seen = lex_case(ctx, &sp);
+            ctx.tag("lit:boundary");
+            let want: Option<i128> = if sp.starts_with('-') { Some(v) } else if v.unsigned_abs() < 1u128 << 127 { Some(v.unsigned_abs() as i128) } else { None };
+            let got = seen.first().cloned();
+            let ok = match want {
+                Some(w) => matches!(&got, Some(Seen::Tok { tok: Tok::Literal(Cell::Int(i)), .. }) if *i == w),
+                None => matches!(&got, Some(Seen::Err { .. })),
+            };
+            ctx.check(ok, || format!("C16 lex {}  ({})", hext(&sp), sp), || format!("{:?}", want), || format!("{:?}", got));
+        }
+    }
+    // print → read
+    for _ in 0..n / 4 {
+        print_case(ctx, &base);
+    }
+    for _ in 0..n / 8 {
+        print_flags_case(ctx, &base);
+    }
+    // locations
+    for t in ["a", "a\n", "\n", "\r\n", "a\r\nb", "a\rb", "é\tb\n日x", "ab", "\r", "x\n\ry"] {
+        let s = t.to_string();
+        for off in 0..=s.len() {
+            if s.is_char_boundary(off) {
+                loc_case(ctx, &s, off, 0);
+            }
+        }
+    }
+    // the empty source: correspondence only (model and implementation both panic in
+    // `parent.substr(0..1)`); the oracle statement is checked in `loc_empty_text`
+    loc_empty_text(ctx);
+    for _ in 0..n / 2 {
+        let text = loc_text(&mut ctx.rng);
+        if text.is_empty() {
+            continue;
+        }
+        let bounds: Vec<usize> = (0..=text.len()).filter(|i| text.is_char_boundary(*i)).collect();
+        let off = *ctx.rng.pick(&bounds);
+        let ends: Vec<usize> = bounds.iter().cloned().filter(|e| *e >= off).collect();
+        let end = if ctx.rng.chance(30) { off } else { ends[ctx.rng.below(ends.len().min(4))] };
+        loc_case(ctx, &text, off, end - off);
+    }
+}
